@@ -165,10 +165,42 @@ func c10Order(c *Ctx) *RuleResult {
 		r.bad(c.Prop, constructOf(u, "upload-after-run"), posOf(p, upload), "outputs can be collected without the command having run")
 	}
 	// Tree order
-	tu := p.Unit(builderPkg, "uploadOutputsState.uploadOutputDirectoryEntered")
-	tinfo := tu.Info()
-	construct := constructOf(tu, "tree order")
+	tu0 := p.Unit(builderPkg, "uploadOutputsState.uploadOutputDirectoryEntered")
+	construct := constructOf(tu0, "tree order")
 	dirsField := p.LookupField(builderPkg, "uploadOutputDirectoryState", "directories")
+	// the serialisation may live in the function itself or in a helper it calls: take the unit that
+	// contains a loop over the directory list
+	tu := tu0
+	reachTU := staticReach(p, []ast.Node{tu0.Decl.Body}, tu0.Info())
+	for _, x := range p.UnitsIn(builderPkg) {
+		if x.Fn == tu0.Fn || !reachTU[x.Fn] {
+			continue
+		}
+		loops := false
+		ast.Inspect(x.Decl.Body, func(n ast.Node) bool {
+			switch n.(type) {
+			case *ast.ForStmt, *ast.RangeStmt:
+				ast.Inspect(n, func(m ast.Node) bool {
+					if e, ok := m.(ast.Expr); ok && (fieldOf(x.Info(), e) == dirsField || fieldOf(x.Info(), resolveLocalAlias(x, e)) == dirsField) {
+						loops = true
+					}
+					return true
+				})
+			}
+			return true
+		})
+		hasOwn := false
+		ast.Inspect(tu0.Decl.Body, func(n ast.Node) bool {
+			if fs, ok := n.(*ast.ForStmt); ok && fs.Post != nil {
+				hasOwn = true
+			}
+			return true
+		})
+		if loops && !hasOwn && x.Fn.Name() != "uploadDirectory" {
+			tu = x
+		}
+	}
+	tinfo := tu.Info()
 	isList := func(e ast.Expr) bool {
 		e = ast.Unparen(e)
 		if sl, ok := e.(*ast.SliceExpr); ok {
